@@ -1380,6 +1380,72 @@ fn c19_limit_body(is_server: bool, stage: usize, declared: u64, limit: u64) -> v
     })
 }
 
+/// C19 / C20: the connection is lost in the middle of a frame, at every byte offset of a valid cast frame that
+/// follows an honest handshake. That session closes, nothing of the half frame takes effect, the node and its
+/// other sessions live on (a second honest peer still gets through and its cast is delivered).
+fn c19_truncation_body() -> vsched::Body {
+    with_rt(move || async move {
+        let w = world().await;
+        let mut bad = Vec::new();
+        let open = |label: &str| {
+            let (node_end, mine) = pipe(label, 0);
+            let _ = w.node.server.cast(NodeServerMessage::ConnectionOpenedExternal { stream: Box::new(node_end), is_server: true });
+            ScriptedPeer::new(mine.stream)
+        };
+        let target = w.p.get_id().pid();
+        let mut frame = Vec::new();
+        VerifFrameReader::encode(&frame_for(Sym::Cast, target).unwrap(), &mut frame);
+        let cut = vsched::choose_free("cut-at", frame.len());
+        vsched::explore_schedules(true);
+        let mut first = open("pipe-first");
+        scripted_name(&mut first, "b@host", 3).await;
+        if !scripted_finish(&mut first, COOKIE).await {
+            bad.push("the honest handshake was not acknowledged".to_string());
+        }
+        let _ = first.send(&frame_for(Sym::Ready, 0).unwrap()).await;
+        vsched::quiesce();
+        while first.recv().await.is_some() {}
+        let mut kids = w.node.server.get_children();
+        kids.sort_by_key(|c| c.get_id());
+        let session = kids.last().cloned();
+        // the frame, cut
+        let _ = first.send_raw(&frame[..cut]).await;
+        first.close().await;
+        vsched::quiesce_time();
+        let handled = w.plog.lock().unwrap().clone();
+        if !handled.is_empty() {
+            bad.push(format!("a cast frame cut after {cut} of {} bytes was delivered: {handled:?}", frame.len()));
+        }
+        if session.as_ref().map(|s| s.get_status()) != Some(ActorStatus::Stopped) {
+            bad.push(format!("the session whose connection was lost mid-frame (after {cut} bytes) is {:?}", session.as_ref().map(|s| s.get_status())));
+        }
+        if w.node.server.get_status() != ActorStatus::Running {
+            bad.push("the node server went down".into());
+        }
+        // the node is not wedged: another honest peer authenticates and its whole frame is delivered
+        let mut second = open("pipe-second");
+        scripted_name(&mut second, "c@host", 4).await;
+        if !scripted_finish(&mut second, COOKIE).await {
+            bad.push(format!("after a connection was lost mid-frame (at byte {cut}) the next honest handshake was not acknowledged"));
+        }
+        let _ = second.send(&frame_for(Sym::Ready, 0).unwrap()).await;
+        vsched::quiesce();
+        while second.recv().await.is_some() {}
+        let _ = second.send_raw(&frame).await;
+        vsched::quiesce_time();
+        let handled = w.plog.lock().unwrap().clone();
+        if handled.len() != 1 {
+            bad.push(format!("the complete cast frame of the next peer was handled {} times: {handled:?}", handled.len()));
+        }
+        vsched::explore_schedules(false);
+        second.close().await;
+        vsched::quiesce();
+        let key = format!("cut={cut}");
+        teardown(w).await;
+        Outcome { key, violations: bad }
+    })
+}
+
 pub fn c19_limit_units(thorough: bool) -> Vec<Unit> {
     let cfg = cluster_cfg();
     let mut v = Vec::new();
@@ -1395,6 +1461,8 @@ pub fn c19_limit_units(thorough: bool) -> Vec<Unit> {
             }
         }
     }
+    // connection lost at every byte offset of a frame (free choice), after an honest handshake
+    v.push(Unit::explore_split(Job::new("node-truncation/cast-frame-cut-at-every-offset", cfg.clone(), Some(if thorough { 1 } else { 0 }), c19_truncation_body()), 8));
     v
 }
 
